@@ -3,6 +3,7 @@
 package ice
 
 import (
+	"bytes"
 	"sort"
 	"strings"
 
@@ -159,4 +160,129 @@ func vpH_C08_dict() {
 		vpAssert(err == nil && pl != nil && pl.Count() == n, "PostingsList.Count agrees with the model")
 	}
 	vpReach("C08 dict end")
+}
+
+func init() { vpRegister("vpH_C08_symkeys", vpH_C08_symkeys) }
+
+// vpSymKey returns nil (k=0) or a key of k-1 symbolic bytes.
+func vpSymKey(tag string, maxLen int) []byte {
+	k := vpChoice(tag+"-len", maxLen+2)
+	if k == 0 {
+		return nil
+	}
+	b := make([]byte, k-1)
+	for i := range b {
+		b[i] = vpU8(tag)
+	}
+	return b
+}
+
+// C08 with symbolic keys: for EVERY lookup key of up to 2 bytes and EVERY
+// range [start,end) with bounds of up to 2 bytes (start <= end), optionally a
+// prefix automaton, the dictionary of a built / merged / merged-with-deletion
+// segment agrees with the set of live terms.
+func vpH_C08_symkeys() {
+	docTerms := make([][]*vpTerm, 3)
+	add := func(d int, t string, freq int) {
+		docTerms[d] = append(docTerms[d], &vpTerm{term: []byte(t), freq: freq})
+	}
+	add(1, "", 1)
+	add(0, "a", 1)
+	add(2, "a", 1)
+	add(0, "x", 1)
+	add(1, "x", 1)
+	add(2, "xa", 1)
+	add(1, "x\x00", 2)
+	add(2, "y\xfe", 3)
+	var docs []*vpDoc
+	for d := 0; d < 3; d++ {
+		docs = append(docs, &vpDoc{fields: []*vpField{{name: "f", length: len(docTerms[d]), terms: docTerms[d]}}})
+	}
+	seg := vpBuild(docs, 1025)
+	held := docs
+	switch vpChoice("variant", 3) {
+	case 1:
+		mb, _ := vpMergeBytes([]*Segment{seg}, []*roaring.Bitmap{nil}, 1025)
+		seg = vpLoad(mb)
+		vpNote("feat:merged")
+	case 2:
+		dr := roaring.New()
+		dr.Add(1)
+		mb, _ := vpMergeBytes([]*Segment{seg}, []*roaring.Bitmap{dr}, 1025)
+		seg = vpLoad(mb)
+		held = []*vpDoc{docs[0], docs[2]}
+		vpNote("feat:merged")
+	}
+	exp := vpBuildExpect(held, []string{"f"})
+	terms := append([]string(nil), exp.terms["f"]...)
+	sort.Strings(terms)
+	d, err := seg.Dictionary("f")
+	vpMust(err, "Dictionary")
+
+	maxKey := 2
+	if vpThorough() {
+		maxKey = 4
+	}
+	if vpChoice("query", 2) == 0 {
+		// point lookups with a symbolic key
+		key := vpSymKey("key", maxKey)
+		var n uint64
+		for _, t := range terms {
+			if bytes.Equal(key, []byte(t)) {
+				n = uint64(len(exp.post["f"][t]))
+			}
+		}
+		ok, err := d.Contains(key)
+		vpAssert(err == nil && ok == (n > 0), "Contains agrees with the model for every key")
+		pl, err := d.PostingsList(key, nil, nil)
+		vpAssert(err == nil && pl != nil && pl.Count() == n, "PostingsList.Count agrees with the model for every key")
+		vpReach("C08 symbolic lookup")
+		return
+	}
+	start := vpSymKey("start", maxKey)
+	end := vpSymKey("end", maxKey)
+	if start != nil && end != nil {
+		vpAssume(bytes.Compare(start, end) <= 0)
+	}
+	var aut segment.Automaton
+	prefix := ""
+	if vpChoice("automaton", 2) == 1 {
+		aut = &vpPrefixAut{"x"}
+		prefix = "x"
+	}
+	var want []string
+	for _, t := range terms {
+		if start != nil && bytes.Compare([]byte(t), start) < 0 {
+			continue
+		}
+		if end != nil && bytes.Compare([]byte(t), end) >= 0 {
+			continue
+		}
+		if !strings.HasPrefix(t, prefix) {
+			continue
+		}
+		want = append(want, t)
+	}
+	it := d.Iterator(aut, start, end)
+	var got []vpObsDictEntry
+	for {
+		e, err := it.Next()
+		vpMust(err, "DictionaryIterator.Next")
+		if e == nil {
+			break
+		}
+		got = append(got, vpObsDictEntry{e.Term(), e.Count()})
+		if len(got) > 32 {
+			vpAssert(false, "dictionary iterator does not terminate")
+			break
+		}
+	}
+	vpAssert(len(got) == len(want), "number of dictionary entries in every range")
+	if len(got) == len(want) {
+		for i := range got {
+			vpAssert(got[i].term == want[i], "dictionary terms of every range in ascending byte order")
+			vpAssert(got[i].count == uint64(len(exp.post["f"][want[i]])), "dictionary entry count in every range")
+		}
+	}
+	vpReach("C08 symbolic range")
 }
